@@ -109,6 +109,8 @@ func (env *evalEnv) resolveType(name string) (string, types.Type) {
 		return "(Array Int Int)", nil
 	case "ArrSlice":
 		return "(Array Int Slice)", nil
+	case "ArrIface":
+		return "(Array Int Iface)", nil
 	}
 	if strings.HasPrefix(name, "(Array") {
 		return name, nil
